@@ -96,6 +96,7 @@ type Pool struct {
 	FailRead int   // >0: the FailRead-th Read returns ErrInjected
 	OnRead   func(ev ReadEvent) // called before each read (scheduler actions, mid-run damage)
 	Record   bool
+	EOFWith  bool // deliver io.EOF together with the last bytes of a file (legal io.Reader behaviour)
 
 	mu      sync.Mutex
 	History []ReadEvent
@@ -189,6 +190,11 @@ func (r *poolReader) Read(b []byte) (int, error) {
 	}
 	p.rec(ReadEvent{Op: "read", Index: r.idx, Off: r.off, N: got})
 	r.off += int64(got)
+	if err == nil && got > 0 && p.EOFWith && r.off >= p.Inner.GetSize(r.idx) {
+		// the reader knows it is at the end: report it with the data instead of on the next call
+		p.Faults++
+		return got, io.EOF
+	}
 	return got, err
 }
 
